@@ -167,3 +167,15 @@ func init() {
 		Exhaustive: func(tier string, ev map[string]int) bool { return ev["loss-subset-covered"] >= 128 },
 	}
 }
+
+func init() {
+	metaTable["C13"] = propMeta{Level: "exploration", Assumptions: []string{
+		"real turn.Client and its relayed PacketConn inside a virtual-time bubble against a scripted TURN server on a zero-latency in-memory network",
+		"happens-before is taken from the server's wire log: a response counts as delivered when it is handed to the client's socket",
+		"server-side expiry of permissions is not modelled here (the statement is about the client's ordering obligations); go1.26.8 -race -tags verif build",
+	},
+		Rule: "per case 1-12 peers (every 17th case 64-263, one thorough case 16384), several sharing an IP; a random sequence of sequential and concurrent WriteTo, inbound Data indications / ChannelData on known and unknown channels (some payloads starting with the magic cookie), read-deadline probes, virtual-time jumps across the permission/binding refresh timers, 1100-datagram bursts without a reader, Close; server reactions to CreatePermission/ChannelBind drawn from {success, 400, 403, 438 with fresh nonce (1-4 in a row), silence}; every 7th case: a TCP allocation receives 5-40 ConnectionAttempt indications nobody accepts, followed by a liveness transaction; " +
+			"oracle: ordering over the wire log (no Send/ChannelData before the matching success was delivered, payload tag names the peer it was written for), uniqueness/range of channel numbers on the wire and in the hooked binding table, FIFO equality of ReadFrom results with what was relayed, deadlines at exact virtual instants; non-trivial = distinct operation/outcome fingerprints",
+		NonTrivial: func(fp string) bool { return true },
+	}
+}
